@@ -314,6 +314,38 @@ func workloads() []workload {
 			}})
 		}
 	}
+	// a font without .notdef and without space whose advance widths are fractions
+	// (whatever the reader derives from all glyphs together must not depend on
+	// the order in which it meets them)
+	ws = append(ws, workload{"type1.Read(no .notdef, no space, fractional widths)", func() string {
+		n := t1raw.Num
+		cat := func(parts ...[]byte) []byte {
+			var b []byte
+			for _, p := range parts {
+				b = append(b, p...)
+			}
+			return b
+		}
+		glyph := func(w10 int32) []byte {
+			return cat(n(0), n(w10), n(10), []byte{12, 12}, []byte{13}, n(10), n(0), []byte{21}, n(100), []byte{6}, n(200), []byte{7}, []byte{9, 14})
+		}
+		enc := "/Encoding 256 array 0 1 255 {1 index exch /.notdef put} for dup 65 /A put dup 66 /B put dup 67 /C put dup 68 /D put dup 69 /E put def\n"
+		data := t1raw.Build(t1raw.FontSpec{EncLenIV: 4, Top: enc,
+			Glyphs: map[string][]byte{"A": glyph(2001), "B": glyph(2002), "C": glyph(2003), "D": glyph(2014), "E": glyph(7)},
+			Order:  []string{"C", "A", "E", "D", "B"}})
+		return observe.Run("font", bytes.NewReader(data)).Obs
+	}})
+	// two glyph names at one character code, the same glyph at two codes
+	ws = append(ws, workload{"afm.Read(two names at one code, one name at two codes)", func() string {
+		text := "StartFontMetrics 4.1\nFontName Z\nFullName Z R\nStartCharMetrics 5\nC 45 ; WX 300 ; N hyphen ; B 0 0 300 100 ;\nC 45 ; WX 310 ; N sfthyphen ; B 0 0 310 100 ;\nC 65 ; WX 500 ; N A ; B 0 0 500 700 ;\nC 66 ; WX 500 ; N A ; B 0 0 400 600 ;\nC 45 ; WX 320 ; N minus ; B 0 0 320 100 ;\nEndCharMetrics\nEndFontMetrics\n"
+		m, err := afm.Read(strings.NewReader(text))
+		if err != nil {
+			return err.Error()
+		}
+		var b bytes.Buffer
+		err = m.Write(&b)
+		return observe.Dump(m) + fmt.Sprintf(" written=%q err=%v", b.Bytes(), err)
+	}})
 	ws = append(ws, workload{"ReadCMap(3 CMaps, one with the empty name)", func() string {
 		var sb strings.Builder
 		for _, name := range []string{"Beta", "", "Alpha"} {
